@@ -127,6 +127,19 @@ def gen_case(rnd, mip_prob=0.3, malformed_prob=0.06):
             'market': market, 'order': rnd.choice(['first', 'last', 'middle']), 'features': feats}
 
 
+def focus_holding(case, rnd):
+    """raise the density of a combination the random draw rarely hits: holding costs together with discounting, in
+    the one-variable form (no charging loss, no in/out costs) or the two-variable form"""
+    a = case['args']
+    a['cost_store'] = gen.q8(rnd, 0.125, 0.5)
+    a['wacc'] = rnd.choice([0.05, 0.1, 0.5, 1.0])
+    if rnd.random() < 0.7:
+        for k in ('eff_in', 'cost_in', 'cost_out', 'no_simult_in_out'):
+            a.pop(k, None)
+    case.setdefault('features', []).append('focus:holding')
+    return case
+
+
 def features(case):
     a = case['args']
     f = list(case.get('features', []))
